@@ -2337,3 +2337,86 @@ m("C06", "reference-conversion-unguarded", "utils.py",
   '''        except KeyError:
             return match.group()
         else:''')
+
+# ---- repairs of round 7 (8f51479, ff91a87, d98e763, 4ec1f7d) ------------------
+m("C15", "class-by-plain-name", "template.py",
+  '''        class_name = "{}.{}".format(
+            cls.__module__, cls.__qualname__).encode('utf-8')''',
+  '''        class_name = cls.__name__.encode('utf-8')''')
+m("C15", "class-module-and-plain-name", "template.py",
+  '''        class_name = "{}.{}".format(
+            cls.__module__, cls.__qualname__).encode('utf-8')''',
+  '''        class_name = "{}.{}".format(
+            cls.__module__, cls.__name__).encode('utf-8')''')
+m("C15", "refactor-class-key-percent", "template.py",
+  '''        class_name = "{}.{}".format(
+            cls.__module__, cls.__qualname__).encode('utf-8')''',
+  '''        class_name = ("%s.%s" % (
+            cls.__module__, cls.__qualname__)).encode('utf-8')''',
+  expect="silent")
+m("C18", "xmlns-takes-element-namespace", "parser.py",
+  '''        elif name == 'xmlns':
+            # The declaration of a default namespace: it is one on any
+            # element, whatever prefix the element itself carries.
+            ns = XMLNS_NS
+        else:''',
+  '''        else:''')
+m("C18", "xmlns-prefix-test-swapped", "parser.py",
+  '''        elif name == 'xmlns':
+            # The declaration of a default namespace: it is one on any
+            # element, whatever prefix the element itself carries.
+            ns = XMLNS_NS''',
+  '''        elif name != 'xmlns':
+            ns = XMLNS_NS''')
+m("C18", "refactor-xmlns-test-first", "parser.py",
+  '''        elif name == 'xmlns':
+            # The declaration of a default namespace: it is one on any
+            # element, whatever prefix the element itself carries.
+            ns = XMLNS_NS
+        else:
+            ns = default''',
+  '''        elif name != 'xmlns':
+            ns = default
+        else:
+            ns = XMLNS_NS''', expect="silent")
+m("C05", "backup-by-mangled-name-only", C,
+  '''        for i, name in enumerate(names):
+            yield from template(
+                "BACKUP = get(KEY, __marker)",
+                BACKUP=identifier("backup%d_%s" % (i, name), id(names)),''',
+  '''        for i, name in enumerate(names):
+            yield from template(
+                "BACKUP = get(KEY, __marker)",
+                BACKUP=identifier("backup_%s" % name, id(names)),''')
+m("C05", "backup-ordinal-constant", C,
+  '''                BACKUP=identifier("backup%d_%s" % (i, name), id(names)),
+                KEY=ast.Constant(str(name)),
+            )
+
+    def _leave_assignment(self, names):
+        for i, name in enumerate(names):
+            yield from template(
+                "if BACKUP is __marker: del econtext[KEY]\\n"
+                "else:                 econtext[KEY] = BACKUP",
+                BACKUP=identifier("backup%d_%s" % (i, name), id(names)),''',
+  '''                BACKUP=identifier("backup%d_%s" % (0, name), id(names)),
+                KEY=ast.Constant(str(name)),
+            )
+
+    def _leave_assignment(self, names):
+        for i, name in enumerate(names):
+            yield from template(
+                "if BACKUP is __marker: del econtext[KEY]\\n"
+                "else:                 econtext[KEY] = BACKUP",
+                BACKUP=identifier("backup%d_%s" % (0, name), id(names)),''')
+m("C10", "name-variable-by-mangled-name-only", C,
+  '''        suffix = "%d_%s" % (names[name], name)
+        stream = identifier("stream_%s" % prefix, suffix)
+        append = identifier("append_%s" % prefix, suffix)''',
+  '''        stream = identifier("stream_%s" % prefix, name)
+        append = identifier("append_%s" % prefix, name)''')
+m("C10", "name-ordinal-constant", C,
+  '''        names[node.name] = len(names)
+        body = []''',
+  '''        names[node.name] = 0
+        body = []''')
